@@ -1055,7 +1055,7 @@ PROPS["C11"] = dict(
          "computed from the property's four rules by the generator; non-trivial = accepted and some field binds to a user definition",
     level_text="Proved in Coq (Properties/C11.v): the model's resolve_string equals lookup_spec -- the property's precedence list -- for every registry, module "
                "path (not itself an item path), use list and name; the result is an entry of the registry; the emitted reference is crate:: + that path; size and alignment "
-               "used for layout are that entry's. Correspondence compares every emitted field/parameter/return type and the registry; the monitor recomputes the binding "
+               "used for layout are that entry's. For the whole build (BindingWhole.v, BindingEmit.v; collision-free clean input, any schedule): C11_binding_stable_whole_build / C11_attempt_binding_is_final -- a clean name resolves in every registry of the build, and in the final one, as lookup_spec over the INPUT's definitions says; C11_field_whole_build / C11_field_of_named_type -- every declared field's region has the type, size and alignment of exactly the selected entry; the same for parameters, return types, enum bases and extern values; C11_emitted_field / _impl_functions / _extern_values -- the emitted text names crate::<path of the selected definition>. Correspondence compares every emitted field/parameter/return type and the registry; the monitor recomputes the binding "
                "from the four rules (independently of model and implementation) and checks emitted paths and the observer's size.",
     level_note="Trusted: Coq kernel; model validated by this run's correspondence. Scope note: a module path that is also an item path (a directory and a type sharing a name) is outside the theorem's hypothesis.",
 )
@@ -1140,7 +1140,7 @@ PROPS["C17"] = dict(
     rule="gen.py with doc comments (0..3 lines, 15% of them empty) on 60% of modules/types/enums/fields/functions, every pub/private combination, marker attributes on "
          "60% of items (only satisfiable ones), 20% packed; non-trivial = accepted with >= 1 type or enum",
     level_text="Proved in Coq (Properties/C17.v): the marker scan and the printed derive list (copyable -> Copy+Clone, cloneable -> Clone, defaultable -> Default), packed -> repr(C, packed) "
-               "without align, doc values joined and printed line for line incl. empty lines (doc_lines roundtrip), generated regions / vftable pointer / placeholders private and undocumented. "
+               "without align, doc values joined and printed line for line incl. empty lines (doc_lines roundtrip), generated regions / vftable pointer / placeholders private and undocumented. On the emitted text, in terms of the declaration (EmitMarkers*.v), for every declared item of an accepted collision-free build: C17_emitted_type (public iff declared pub; derives exactly Copy+Clone / Clone / +Default per the markers; repr(C, packed) iff packed, else repr(C, align(N)); doc lines as declared in order; no other attribute), C17_emitted_fields (every emitted field is generated -- private, undocumented -- or the counterpart of a declared statement with its visibility and docs), C17_emitted_enum, C17_emitted_impl_functions, C17_emitted_vftable_slots, C17_emitted_inherited_wrappers / C17_emitted_wrappers_origin (inherited copies at any depth carry the visibility and docs of a declared function), and 'on no other item': C17_no_doc_on_type_helpers / _enum_helpers, C17_emitted_module_docs. "
                "Correspondence compares visibility, derives, repr and doc attributes of every emitted node; the monitor recomputes all of them from the description and checks that helper items carry no doc.",
     level_note="Trusted: Coq kernel; model validated by this run's correspondence; doc lines containing a line break are outside the doc theorem's hypothesis (they split, as rustdoc would).",
 )
